@@ -94,6 +94,7 @@ type Upstream struct {
 	eventDispatcher *eventDispatcher
 
 	connState *connStatus
+	connEpoch uint64 // connState.reconnects at the time the stream was attached to its wire connection
 	state     *streamState
 
 	upstreamChunkResultChs map[uint32]chan *message.UpstreamChunkResult
@@ -333,7 +334,7 @@ func (u *Upstream) run(isResume bool) error {
 	}
 	eg.Go(func() error {
 		u.connState.cond.L.Lock()
-		for !u.connState.IsWithoutLock(connStatusReconnecting) {
+		for !u.connState.IsWithoutLock(connStatusReconnecting) && u.connState.reconnects == u.connEpoch {
 			select {
 			case <-ctx.Done():
 				u.connState.cond.L.Unlock()
